@@ -331,6 +331,12 @@ func Merge(parts []*Part) *Part {
 			}
 		}
 		for k, v := range p.Counters {
+			if strings.HasPrefix(k, "max_") {
+				if v > m.Counters[k] {
+					m.Counters[k] = v
+				}
+				continue
+			}
 			m.Counters[k] += v
 		}
 		for k, v := range p.Outcomes {
